@@ -12,9 +12,9 @@ ALL_OPENS = {"ok", "okNoAS4", "okTrans", "hold0", "hold3", "hold30", "hold1", "h
 GARBAGE = {"badMarker", "lenShort", "len18", "lenLong", "badType", "type0"}
 
 
-def consts(cfg, opens, updates, garbage, stops, depth, sessions=2):
+def consts(cfg, opens, updates, garbage, stops, depth, sessions=2, pols=(), origs=()):
     return {"Opens": set(opens), "Updates": set(updates), "Garbage": set(garbage), "Stops": set(stops), "LocalCfg": cfg,
-            "MaxDepth": depth, "MaxSessions": sessions}
+            "MaxDepth": depth, "MaxSessions": sessions, "Pols": set(pols), "Origs": set(origs)}
 
 
 def run_family(ctx, label, c, budget, design=True, sim=None):
